@@ -550,9 +550,18 @@ end Gluon.SessionLoop
 namespace Gluon.SessionLoop
 open Gluon.Parse
 
-/-- the tag of a successfully parsed command is the tag prefix of the unread input (or empty: DONE) -/
+def isDoneCmd : Cmd → Bool
+  | .done => true
+  | _ => false
+
+theorem isDoneCmd_eq {c : Cmd} (h : isDoneCmd c = true) : c = .done := by
+  cases c <;> first | rfl | cases h
+
+/-- the tag of a successfully parsed command is the tag prefix of the unread input; it is empty exactly for
+DONE (whose "tag prefix" is the word DONE itself) -/
 theorem parseLine_ok_tag (fuel : Nat) (s : PState) (c : Command) (s' : PState) (h : parseLine fuel s = .ok c s') :
-    c.tag = [] ∨ (c.tag = s.rest.takeWhile isTagByte ∧ c.tag ≠ [] ∧ lowerBytes c.tag ≠ kw "done") := by
+    (c.tag = [] ∧ isDoneCmd c.payload = true ∧ lowerBytes (s.rest.takeWhile isTagByte) = kw "done") ∨
+    (c.tag = s.rest.takeWhile isTagByte ∧ c.tag ≠ [] ∧ lowerBytes c.tag ≠ kw "done") := by
   rw [parseLine_eq, bind_eq] at h
   obtain ⟨s1, e, hi, hl⟩ := advance_input s
   rw [e] at h
@@ -566,9 +575,11 @@ theorem parseLine_ok_tag (fuel : Nat) (s : PState) (c : Command) (s' : PState) (
     rw [bind_eq] at h
     split at h
     · rename_i cmd s3 hc
-      have hcmd : cmd.tag = [] ∨ (cmd.tag = tag ∧ lowerBytes tag ≠ kw "done") := by
+      have hcmd : (cmd.tag = [] ∧ isDoneCmd cmd.payload = true ∧ lowerBytes tag = kw "done") ∨
+          (cmd.tag = tag ∧ lowerBytes tag ≠ kw "done") := by
         split at hc
-        · cases hc; exact Or.inl rfl
+        · rename_i hd
+          cases hc; exact Or.inl ⟨rfl, rfl, hd⟩
         · rename_i hnd
           rw [bind_eq] at hc
           split at hc
@@ -592,8 +603,8 @@ theorem parseLine_ok_tag (fuel : Nat) (s : PState) (c : Command) (s' : PState) (
         · cases h
         · cases h
       rw [hcc]
-      rcases hcmd with h0 | ⟨h1, h2⟩
-      · exact Or.inl h0
+      rcases hcmd with ⟨h0, h0', h0''⟩ | ⟨h1, h2⟩
+      · exact Or.inl ⟨h0, h0', by rw [← htag]; exact h0''⟩
       · exact Or.inr ⟨by rw [h1, htag], by rw [h1]; exact hne, by rw [h1]; exact h2⟩
     · cases h
     · cases h
@@ -743,7 +754,10 @@ theorem readStep_tag (cfg : Cfg) (fuel : Nat) (s : PState) (l : Line) (s' : PSta
               exact conv _ (errTag_spec cfg fuel s)
   | ok c s1 =>
     rw [hp] at h
-    have hc := parseLine_ok_tag fuel s c s1 hp
+    have hc : c.tag = [] ∨ (c.tag = s.rest.takeWhile isTagByte ∧ c.tag ≠ [] ∧ lowerBytes c.tag ≠ kw "done") := by
+      rcases parseLine_ok_tag fuel s c s1 hp with h0 | h1
+      · exact Or.inl h0.1
+      · exact Or.inr h1
     simp only at h
     split at h
     · split at h
@@ -752,5 +766,97 @@ theorem readStep_tag (cfg : Cfg) (fuel : Nat) (s : PState) (l : Line) (s' : PSta
         · cases h
         · cases h; exact conv _ hc
     · cases h; exact conv _ hc
+
+theorem lineTag_some_ne {b u : Bytes} (h : lineTag b = some u) : u ≠ [] := by
+  unfold lineTag at h
+  simp only at h
+  split at h
+  · cases h
+  · rename_i hc
+    cases h
+    intro he
+    apply hc
+    simp [he]
+
+/-- no tag prefix, or the word DONE: the line has no tag -/
+theorem lineTag_none_of (A rest : Bytes) (h : ((A ++ [10]) ++ rest).takeWhile isTagByte = [] ∨
+    lowerBytes (((A ++ [10]) ++ rest).takeWhile isTagByte) = kw "done") : lineTag (A ++ [10]) = none := by
+  unfold lineTag
+  rw [takeWhile_line] at h
+  simp only
+  rcases h with h | h
+  · simp [h]
+  · simp [h]
+
+/-- **tags of the reader's lines, exactly** (with the tag kept on late errors, `lateErrDropsTag = false`, and enough
+fuel): the tag the reader reports for a line that does not parse is the line's tag, empty when it has none; a
+parsed command carries the line's tag — except DONE, which has none and carries an empty one; STARTTLS lines
+carry theirs -/
+theorem readStep_tag_exact (cfg : Cfg) (hk : cfg.lateErrDropsTag = false) (fuel : Nat) (s : PState)
+    (hf : s.rest.length < fuel) (l : Line) (s' : PState) (h : readStep cfg fuel s = .line l s') :
+    match l.res with
+    | .err t => t = (lineTag l.bytes).getD []
+    | .cmd c => (isDoneCmd c.payload = true ∧ c.tag = [] ∧ lineTag l.bytes = none) ∨ lineTag l.bytes = some c.tag
+    | .tlsOk t => lineTag l.bytes = some t
+    | .tlsNo t => lineTag l.bytes = some t := by
+  obtain ⟨A, hA, hsplit⟩ := readStep_line_lf cfg fuel s l s' h
+  have hrest : s.rest = (A ++ [10]) ++ s'.rest := by rw [hsplit, hA]
+  have cmdCase : ∀ c s1, parseLine fuel s = .ok c s1 →
+      (isDoneCmd c.payload = true ∧ c.tag = [] ∧ lineTag l.bytes = none) ∨ lineTag l.bytes = some c.tag := by
+    intro c s1 hp
+    rcases parseLine_ok_tag fuel s c s1 hp with ⟨h0, h1, h2⟩ | ⟨h1, h2, h3⟩
+    · left
+      refine ⟨h1, h0, ?_⟩
+      rw [hA]
+      exact lineTag_none_of A s'.rest (Or.inr (by rw [← hrest]; exact h2))
+    · right
+      rw [hA]
+      exact lineTag_of_prefix A s'.rest c.tag (by rw [h1, hrest]) h2 h3
+  unfold readStep at h
+  cases hp : parseLine fuel s with
+  | fuel => rw [hp] at h; cases h
+  | err e s1 =>
+    rw [hp] at h
+    cases e with
+    | panic => cases h
+    | ioEOF => cases h
+    | parse t =>
+      simp only at h
+      split at h
+      · cases h
+      · cases hci : consumeInvalidInput s1 with
+        | mk s2 ok =>
+          rw [hci] at h
+          cases ok with
+          | false => cases h
+          | true =>
+            simp only at h
+            split at h
+            · cases h
+            · cases h
+              simp only
+              rw [errTag_full cfg fuel s hk hf]
+              simp only at hA
+              rw [hrest, takeWhile_line, hA]
+              unfold lineTag
+              simp only
+              split <;> simp_all
+  | ok c s1 =>
+    rw [hp] at h
+    have hc := cmdCase c s1 hp
+    simp only at h
+    split at h
+    · rename_i hst
+      -- STARTTLS is not DONE: its tag is the line's
+      have hc' : lineTag l.bytes = some c.tag := by
+        rcases hc with ⟨hd, _, _⟩ | hc
+        · rw [hst] at hd; cases hd
+        · exact hc
+      split at h
+      · cases h; exact hc'
+      · split at h
+        · cases h
+        · cases h; exact hc'
+    · cases h; exact hc
 
 end Gluon.SessionLoop
